@@ -156,6 +156,9 @@ func selfTags(c *Case, results ...Canon) []string {
 	if tieSensitive(c.Query) && topkTie(c) {
 		tags = append(tags, "topk-tie")
 	}
+	if unpinnedInStepInvariant(c) {
+		tags = append(tags, "unpinned-selector-in-step-invariant")
+	}
 	return tags
 }
 
